@@ -71,6 +71,8 @@ pub fn gen_graph(t: &mut Tape) -> Prog {
     let chainy = t.chance(1, 2);
     let mut addr = 0x1000u64;
     let mut tdefs: Vec<TypeDef> = vec![];
+    // which types own a vftable block is decided up front (base edges need to know)
+    let has_vft: Vec<bool> = (0..nt).map(|_| t.chance(1, 4)).collect();
     for i in 0..nt {
         let m = tmod[i];
         let mut td = TypeDef {
@@ -79,6 +81,23 @@ pub fn gen_graph(t: &mut Tape) -> Prog {
             packed: true,
             ..Default::default()
         };
+        // some types own a vftable: the generated <T>Vftable item must not disturb resolution either
+        if has_vft[i] {
+            td.vft = Some(Vft {
+                size: None,
+                funcs: vec![Func {
+                    sty: 0,
+                    vis: true,
+                    name: format!("v{i}"),
+                    doc: vec![],
+                    args: vec![Arg::ConstSelf],
+                    ret: None,
+                    addr: None,
+                    index: None,
+                    cc: None,
+                }],
+            });
+        }
         let nf = t.below(4) as usize + if chainy && i + 1 < nt { 1 } else { 0 };
         for fi in 0..nf {
             // target
@@ -141,7 +160,8 @@ pub fn gen_graph(t: &mut Tape) -> Prog {
                         } else {
                             let by_name = t.chance(1, 2);
                             import(&mut prog, m, tmod[j], &tname(j), by_name);
-                            (Ty::Named(tname(j)), true)
+                            // a type with its own block would have to restate an (inherited) base table (C06's business): then a plain member
+                            (Ty::Named(tname(j)), !has_vft[i])
                         }
                     }
                     5..=7 => {
@@ -516,11 +536,12 @@ pub fn check_complete(prog: &Prog, w: u64, built: &Built) -> Result<(), String> 
 
 impl Prop for Graph {
     type Case = Case;
+    crate::prog_shrink!();
     fn name(&self) -> String {
         "C10/graph".into()
     }
     fn rule(&self) -> String {
-        "dependency graphs: 2-12 packed types and 0-2 enums in 1-4 modules; fields by value / in arrays / as #[base] / behind pointers, targets forward, backward, self, enums, undefined names; impl signatures and extern values over the same names; items shuffled inside modules. Oracle: build Ok iff the reference model binds every name and finds no by-value cycle; on Ok every declared type, enum, field, parameter, return type and extern value appears in the output with the expected fully qualified type (syn); on Err caused by fields only, the message names every stuck type path (whole token) and, inside its `failed on types: [...]` list, no resolvable one. Non-trivial: by-value chain >= 3 over >= 4 types, or any cycle, or any undefined name".into()
+        "dependency graphs: 2-12 packed types (a quarter of them with a vftable block) and 0-2 enums in 1-4 modules; fields by value / in arrays / as #[base] / behind pointers, targets forward, backward, self, enums, undefined names; impl signatures and extern values over the same names; items shuffled inside modules. Oracle: build Ok iff the reference model binds every name and finds no by-value cycle; on Ok every declared type, enum, field, parameter, return type and extern value appears in the output with the expected fully qualified type (syn); on Err caused by fields only, the message names every stuck type path (whole token) and, inside its `failed on types: [...]` list, no resolvable one. Non-trivial: by-value chain >= 3 over >= 4 types, or any cycle, or any undefined name".into()
     }
     fn gen(&self, t: &mut Tape) -> Case {
         let w = if t.chance(1, 2) { 8 } else { 4 };
